@@ -1,2 +1,134 @@
-Require Import TV.Proofs.CompileProofs.
-Theorem C10_stub : True. Proof. exact stub. Qed.
+(* C10 -- compiled scalar programs evaluate to the ZX scalars they were compiled from.
+   Statements only; proofs live in Proofs/CompileProofs.v.
+   Model/Compile.v  : pyzx `Scalar` record, `scalar_value` (= Scalar.evaluate_scalar, the reference), `compile_scalar_graphs`;
+   Model/Evaluate.v : `matmul_gf2`, `evaluate` (one row of param_vals), `eval_guard` (the int32 no-wrap guard of C09, decidable);
+   gen/Gen_matmul_gf2.v : `gf2_mod_before_cast`, regenerated from compile/evaluate.py on every run. *)
+From Coq Require Import ZArith List Bool Ring_theory.
+Import ListNotations.
+Require Import TV.Base.D8 TV.gen.Gen_matmul_gf2 TV.Model.ExactScalar TV.Model.Compile TV.Model.Evaluate TV.Proofs.CompileProofs.
+Open Scope Z_scope.
+
+(* ---- the GF(2) row sums: parity of (mask AND bits), for every width (no bound on the number of set parameters) ---- *)
+Theorem C10_gf2 : forall mask bits : list bool, matmul_gf2 mask bits = b2z (parity mask bits).
+Proof. exact gf2_correct. Qed.
+
+(* the two orders of `% 2` and the saturating float32 -> uint8 cast the translator distinguishes *)
+Theorem C10_gf2_mod_before_cast_all_widths : forall mask bits, matmul_gf2_gen true mask bits = b2z (parity mask bits).
+Proof. exact gf2_gen_mod_first. Qed.
+Theorem C10_gf2_cast_before_mod_guarded : forall mask bits, dot mask bits < 256 -> matmul_gf2_gen false mask bits = b2z (parity mask bits).
+Proof. exact gf2_gen_cast_first_guarded. Qed.
+(* ... and without the guard the cast-first variant is wrong: 256 selected parameters set (kernel-checked witness) *)
+Theorem C10_gf2_cast_before_mod_refuted : exists mask bits, matmul_gf2_gen false mask bits <> b2z (parity mask bits).
+Proof. exact gf2_gen_cast_first_refuted. Qed.
+
+(* ---- main theorem.  In every commutative ring with w^4 = -1 (w = e^{i pi/4}) and 1/2, for every character `cexp` agreeing with
+   w on multiples of 1/4 and every interpretation `opq` of the floating-point factors; for ALL lists of scalars, all duplicate-free
+   parameter lists covering their variables (wf_scalar), all 0/1 assignments: if the decidable no-wrap guard holds on this input,
+   the compiled evaluator returns a result and its value is the sum of pyzx's evaluate_scalar over the list
+   (zero graphs contribute 0; exact branch: one ExactScalarArray element; approximate branch: sum of exact part * float * 2^power2). ---- *)
+Theorem C10_eval :
+  forall (R : Type) (rO rI : R) (radd rmul rsub : R -> R -> R) (ropp : R -> R),
+  ring_theory rO rI radd rmul rsub ropp eq ->
+  forall w : R, rmul (rmul w w) (rmul w w) = ropp rI ->
+  forall half : R, radd half half = rI ->
+  forall (cexp : Z -> positive -> R) (opq : Z -> R),
+  (forall n, 0 <= n -> cexp n 1%positive = cexp4 R rI rmul w (4 * n)) ->
+  (forall n, 0 <= n -> cexp n 2%positive = cexp4 R rI rmul w (2 * n)) ->
+  (forall n, 0 <= n -> cexp n 4%positive = cexp4 R rI rmul w n) ->
+  forall (vals : nat -> Z) (ps : list nat), binary vals -> NoDup ps ->
+  forall (gs : list scalar) (c : compiled), Forall (wf_scalar ps) gs ->
+  compile_scalar_graphs gs ps = Some c ->
+  eval_guard (row_of vals ps) c = true ->
+  exists r, evaluate (row_of vals ps) c = Some r /\
+    result_value R rO rI radd rmul ropp w half cexp opq r
+    = rsuml R rO radd (map (scalar_value R rO rI radd rmul rsub ropp w half cexp opq vals) gs).
+Proof. exact eval_correct. Qed.
+
+(* every 0/1 row of param_vals of the right width is such an assignment *)
+Theorem C10_rows_are_assignments : forall ps, NoDup ps -> forall bits : list bool, length bits = length ps ->
+  exists vals, binary vals /\ row_of vals ps = bits.
+Proof. exact row_of_surjective. Qed.
+
+(* compile_scalar_graphs itself never fails on well-formed scalars (the DyadicNumber normalisation loop terminates) *)
+Theorem C10_compile_total : forall gs ps, Forall (wf_scalar ps) gs -> exists c, compile_scalar_graphs gs ps = Some c.
+Proof. exact compile_total. Qed.
+
+(* recorded behaviour: if every graph is the zero scalar, nothing is left and the evaluator raises instead of returning 0 *)
+Theorem C10_all_zero_raises : forall gs ps c bits, Forall (fun g => s_is_zero g = true) gs ->
+  compile_scalar_graphs gs ps = Some c -> evaluate bits c = None.
+Proof. exact all_zero_raises. Qed.
+
+(* ---- the pieces, stated on their own ---- *)
+(* phase-node term of the table = 1 + cexp(const + sum of the variables) *)
+Theorem C10_term_A :
+  forall (R : Type) (rO rI : R) (radd rmul rsub : R -> R -> R) (ropp : R -> R),
+  ring_theory rO rI radd rmul rsub ropp eq ->
+  forall w : R, rmul (rmul w w) (rmul w w) = ropp rI ->
+  forall (vals : nat -> Z) (ps : list nat), binary vals -> NoDup ps ->
+  forall k vs, byte k -> vars_ok ps vs ->
+  den R rO rI radd rmul ropp w (val_a (row_of vals ps) (k, bitstr ps vs)) = node_value R rI radd rmul w vals (k, vs).
+Proof. exact val_a_value. Qed.
+(* phase-pair term = 1 + cexp(psi) + cexp(phi) - cexp(psi + phi) *)
+Theorem C10_term_D :
+  forall (R : Type) (rO rI : R) (radd rmul rsub : R -> R -> R) (ropp : R -> R),
+  ring_theory rO rI radd rmul rsub ropp eq ->
+  forall w : R, rmul (rmul w w) (rmul w w) = ropp rI ->
+  forall (vals : nat -> Z) (ps : list nat), binary vals -> NoDup ps ->
+  forall pp, byte (sp_alpha pp) -> byte (sp_beta pp) -> vars_ok ps (sp_A pp) -> vars_ok ps (sp_B pp) ->
+  den R rO rI radd rmul ropp w (val_d (row_of vals ps) (sp_alpha pp, sp_beta pp, bitstr ps (sp_A pp), bitstr ps (sp_B pp)))
+  = pair_value R rI radd rmul rsub w vals pp.
+Proof. exact val_d_value. Qed.
+(* static data: (floatfactor coefficients) * 2^power2 = sqrt2^power2 * DyadicNumber value, for odd and even, positive and negative powers *)
+Theorem C10_static_float :
+  forall (R : Type) (rO rI : R) (radd rmul rsub : R -> R -> R) (ropp : R -> R),
+  ring_theory rO rI radd rmul rsub ropp eq ->
+  forall w : R, rmul (rmul w w) (rmul w w) = ropp rI ->
+  forall half : R, radd half half = rI ->
+  forall g p2 ff, static_float g = Some (p2, ff) ->
+  rmul (den R rO rI radd rmul ropp w ff) (pow2 R rI radd rmul half p2)
+  = rmul (sqrt2pow R rI rmul rsub w half (s_power2 g)) (dy_value R rO rI radd rmul ropp w half (s_floatfactor g)).
+Proof. exact static_float_value. Qed.
+(* the products / the aligned sum inside the guard are the ring product / sum *)
+Theorem C10_prod_in_guard :
+  forall (R : Type) (rO rI : R) (radd rmul rsub : R -> R -> R) (ropp : R -> R),
+  ring_theory rO rI radd rmul rsub ropp eq ->
+  forall w : R, rmul (rmul w w) (rmul w w) = ropp rI ->
+  forall half : R, radd half half = rI ->
+  forall l, prod_guard l = true ->
+  exists r, esa_prod l = Some r /\
+    esa_value R rO rI radd rmul ropp w half r = rprodl R rI rmul (map (esa_value R rO rI radd rmul ropp w half) l).
+Proof. exact esa_prod_value. Qed.
+Theorem C10_sum_in_guard :
+  forall (R : Type) (rO rI : R) (radd rmul rsub : R -> R -> R) (ropp : R -> R),
+  ring_theory rO rI radd rmul rsub ropp eq ->
+  forall w : R,
+  forall half : R, radd half half = rI ->
+  forall l s, sum_guard l = true -> esa_sum l = Some s ->
+  esa_value R rO rI radd rmul ropp w half s = rsuml R rO radd (map (esa_value R rO rI radd rmul ropp w half) l).
+Proof. exact esa_sum_value. Qed.
+
+(* ---- non-vacuity ---- *)
+(* the ring hypotheses are met by a non-trivial ring: Q(w) = Q[x]/(x^4 + 1) *)
+Example C10_ring_inhabited :
+  ring_theory QW.zero QW.one QW.add QW.mul QW.sub QW.opp eq /\
+  QW.mul (QW.mul QW.w QW.w) (QW.mul QW.w QW.w) = QW.opp QW.one /\ QW.add QW.half QW.half = QW.one /\ QW.zero <> QW.one.
+Proof. exact (conj QW.ring (conj QW.w4 (conj QW.half2 QW.nontrivial))). Qed.
+
+(* a list with all four term types, a '1' member, an odd negative sqrt2 power, a dyadic factor, a zero graph, unequal term counts:
+   well-formed, compiles, and the guard holds on all 8 assignments *)
+Definition ex_ps : list nat := [7; 3; 5]%nat.
+Definition ex_gs : list scalar :=
+  [ mkScalar (-3) 3 4 [((true, [7%nat]), (false, [3%nat; 5%nat]))] [[7%nat]; [7%nat; 3%nat]] [[7%nat]] [mkSP 1 6 [3%nat] [5%nat; 7%nat]]
+             [(1, [7%nat]); (7, [3%nat; 5%nat]); (2, [])] (mkDy 2 (3, 1, 0, -1)) AOne false;
+    mkScalar 2 1 1 [] [] [] [] [(4, [])] (mkDy 0 (1, 0, 0, 0)) AOne true;
+    mkScalar 4 0 1 [] [] [[5%nat]] [] [(3, [5%nat])] (mkDy 0 (1, 0, 0, 0)) AOne false ].
+Example C10_wf_inhabited : Forall (wf_scalar ex_ps) ex_gs.
+Proof. exact (proj2 (Forall_forall _ _) (fun g Hg => wf_scalarb_sound ex_ps g (proj1 (forallb_forall _ _) (eq_refl : forallb (wf_scalarb ex_ps) ex_gs = true) g Hg))). Qed.
+Example C10_guard_inhabited :
+  match compile_scalar_graphs ex_gs ex_ps with
+  | Some c => forallb (fun bits => eval_guard bits c)
+                [[false; false; false]; [true; false; false]; [false; true; false]; [true; true; false];
+                 [false; false; true]; [true; false; true]; [false; true; true]; [true; true; true]]
+  | None => false
+  end = true.
+Proof. vm_compute. reflexivity. Qed.
